@@ -27,6 +27,8 @@ impl metrique::CloseValue for Bomb {
         if self.0 {
             std::panic::panic_any("harness: the slot value's close() panics");
         }
+        // closing a slot value takes a while: a scheduling point in the middle of the slot guard's drop
+        detsim::yield_point();
         0
     }
 }
@@ -381,6 +383,14 @@ fn uow_main(plan: &Value, log: ULog) {
                                 log.log(UK::WaitData { slot: 1, got });
                             }
                             std::task::Poll::Pending => {
+                                // the future stays around for a while after its last poll (a timeout that has not
+                                // fired yet): the guard may send its value in between
+                                for _ in 0..ju(op, "linger", 0) {
+                                    detsim::yield_point();
+                                }
+                                if ju(op, "linger_ns", 0) > 0 {
+                                    detsim::sleep_ns(ju(op, "linger_ns", 0));
+                                }
                                 drop(fut);
                                 log.log(UK::WaitCancelled { slot: 1 });
                             }
@@ -731,6 +741,10 @@ pub fn gen_uow(rng: &mut Rng, slots: bool) -> Value {
                     let id = 100 + 2 * next + if slot == 1 { 0 } else { 1 };
                     next += 1;
                     let mode = *rng.pick(&["wait", "wait", "discard", "delay"]);
+                    if slot == 1 && rng.chance(0.12) {
+                        // the parent looks at the slot (with a timeout) before anybody has opened it
+                        main_ops.push(json!({"op":"wait_data","cancel":true,"linger": rng.below(2)}));
+                    }
                     let mut o = json!({"op":"open_slot","slot":slot,"mode":mode,"obj":id});
                     if rng.chance(0.2) {
                         o["redelay"] = json!(1 + rng.below(2));
@@ -802,7 +816,7 @@ pub fn gen_uow(rng: &mut Rng, slots: bool) -> Value {
         if is_slot1 && slots && style != 0 && !any_overwrite && op.get("forget").is_none() && op.get("in_panic").is_none() && op.get("bomb").is_none() && rng.chance(0.35) {
             // the owner waits for this guard's data before it is released: another thread must drop it
             who = rng.below(nd);
-            main_ops.insert(owner_pos, json!({"op":"wait_data","cancel": rng.chance(0.35)}));
+            main_ops.insert(owner_pos, json!({"op":"wait_data","cancel": rng.chance(0.35),"linger": *rng.pick(&[0u64, 0, 1, 3, 8]),"linger_ns": *rng.pick(&[0u64, 0, 0, 60_000])}));
             if rng.chance(0.3) {
                 // ... and asks again (a completed wait is repeatable)
                 main_ops.insert(owner_pos + 1, json!({"op":"wait_data"}));
